@@ -61,7 +61,9 @@ _closed_string = st.builds(
     lambda p, q, body: p + q + body + q,
     st.sampled_from(STRING_PREFIXES), st.sampled_from(STRING_OPENERS),
     st.sampled_from(['', 's', 'a b', '\\n', '\\', '\\\n', '\n', '{x}', '\\x41', '\\N{DASH}', "\\'", '\\"',
-                     '{', '}', '#', 'é', '\r', '\\\r\n', '\f']))
+                     '{', '}', '#', 'é', '\r', '\\\r\n', '\f',
+                     # escapes whose validity depends on the kind of literal (bytes / str / raw)
+                     '\\N{foo}', '\\u12', '\\U0001', '\\x4', '\\8', '\\N', '\\u00e9', '\\777']))
 _anytext = st.text(max_size=6)
 
 
